@@ -222,6 +222,16 @@ def extract_all():
     ex = strip_comments(src("ex.c")); edefs = defines(ex)
     data["EXLEN"] = cint(vdefs["EXLEN"]) if "EXLEN" in vdefs else cint(edefs["EXLEN"])
     m = re.search(r"\bbufs\[(\d+)\]", ex); data["NBUFS"] = int(m.group(1))
+    cmds = []
+    for p in split_top(find_initializer(ex, r"\bexcmds\s*\[\s*\]\s*=\s*\{")):
+        f = split_top(p[1:-1]); cmds.append([cstr_bytes(f[0]), cstr_bytes(f[1]), f[2].strip()])
+    data["excmds"] = cmds
+    opts = []
+    for p in split_top(find_initializer(ex, r"\boptions\s*\[\s*\]\s*=\s*\{")):
+        f = split_top(p[1:-1]); opts.append([cstr_bytes(f[0]), cstr_bytes(f[1]), f[2].strip().lstrip("&")])
+    data["options"] = opts
+    m = re.search(r'strchr\(\s*("(?:[^"\\]|\\.)*")\s*,\s*\(unsigned char\)\s*\*src\)', ex)
+    data["loc_chars"] = cstr_bytes(m.group(1)) if m else None
     return data
 
 def eval_shift(e):
@@ -254,6 +264,12 @@ def render(data):
     L.append("def ratomSpecial : List Nat := " + lean_list(data["ratom_special"]))
     L.append("def repChars : List Nat := " + lean_list(data["rep_chars"]))
     L.append("def rstrStop : List Nat := " + lean_list(data["rstr_stop"]) + "\n")
+    L.append("/-- `excmds[]` of ex.c: (abbr, name, handler) -/")
+    L.append("def excmds : List (List Nat × List Nat × String) := [" + ",\n  ".join('(%s, %s, "%s")' % (lean_list(a), lean_list(b), c) for a, b, c in data["excmds"]) + "]\n")
+    L.append("/-- `options[]` of ex.c: (abbr, name, variable) -/")
+    L.append("def options : List (List Nat × List Nat × String) := [" + ",\n  ".join('(%s, %s, "%s")' % (lean_list(a), lean_list(b), c) for a, b, c in data["options"]) + "]\n")
+    if data["loc_chars"] is None: raise ExtractError("ex_loc character set not found")
+    L.append("def locChars : List Nat := " + lean_list(data["loc_chars"]) + "\n")
     for k in ("NGRPS", "NREPS", "NDEPT", "SBUFSZ", "NMARKS", "RD_CHUNK", "WR_BATCH", "LN_INIT", "HIST_INIT", "EXLEN", "NBUFS"):
         L.append("def %s : Nat := %d" % (k, data[k]))
     L.append("\nend Neatvi.Gen")
